@@ -245,7 +245,9 @@ Inductive label :=
 | ResetK (k : kind)            (* root.ResetRequestVerifications / ResetResponseVerifications *)
 | Query                        (* verify.Handler: requests then responses *)
 | Reset                        (* verify.ResetHandler: requests then responses *)
-| Refused.                     (* a call either handler answers with 405 (wrong method) *)
+| Refused                      (* a call a handler refuses (405 wrong method, 400 unparsable configuration) *)
+| Configure (c : cfg).         (* martianhttp.Modifier POST: both sides replaced by the new configuration's,
+                                  a side it does not cover becomes the noop, never the previous one *)
 
 Record sys := mkSys { tq : ktree; ts : ktree }.
 
@@ -263,6 +265,7 @@ Definition step (vr : variant) (s : sys) (l : label) : sys * option (list failur
   | Query => (s, Some (errs_of (verify Req (tq s)) ++ errs_of (verify Res (ts s))))
   | Reset => (mkSys (reset (reset_both vr Req) (tq s)) (reset (reset_both vr Res) (ts s)), None)
   | Refused => (s, None)
+  | Configure c => (init c, None)
   end.
 
 (* final state and the answers of the queries, in order *)
@@ -292,6 +295,7 @@ Fixpoint spec_run (tq0 ts0 : ktree) (aq as_ : list msg) (h : list label) : list 
   | Query :: r => (expected Req aq tq0 ++ expected Res as_ ts0) :: spec_run tq0 ts0 aq as_ r
   | Reset :: r => spec_run tq0 ts0 [] [] r
   | Refused :: r => spec_run tq0 ts0 aq as_ r
+  | Configure c :: r => spec_run (root Req c) (root Res c) [] [] r
   end.
 
 Definition spec_outputs (c : cfg) (h : list label) : list (list failure) :=
@@ -389,7 +393,7 @@ Fixpoint query (k : kind) (t : ktree) : list failure :=
 Definition kind_eqb (a b : kind) : bool :=
   match a, b with Req, Req => true | Res, Res => true | _, _ => false end.
 
-(* the messages of kind [k] since the last reset of kind [k] *)
+(* the messages of kind [k] since the last reset of kind [k] / the last reconfiguration *)
 Fixpoint since (k : kind) (acc : list msg) (h : list label) : list msg :=
   match h with
   | [] => acc
@@ -398,8 +402,18 @@ Fixpoint since (k : kind) (acc : list msg) (h : list label) : list msg :=
                | Traffic k' m => if kind_eqb k k' then acc ++ [m] else acc
                | ResetK k' => if kind_eqb k k' then [] else acc
                | Reset => []
+               | Configure _ => []
                | _ => acc
                end) r
+  end.
+
+(* the structure of kind [k] configured after the history (the last
+   configuration posted, else the one the history started with) *)
+Fixpoint current (k : kind) (t0 : ktree) (h : list label) : ktree :=
+  match h with
+  | [] => t0
+  | Configure c :: r => current k (root k c) r
+  | _ :: r => current k t0 r
   end.
 
 (* a history without the traffic addressed to the proxy's own API *)
